@@ -152,18 +152,63 @@ regmc = {{ path = "{ENGINE}/regmc" }}
 
 
 def cargo_build(ws, profile, quiet=True):
-    """Build the workspace. Returns (ok, seconds, diagnostics text). A failure to build the macro crate
-    itself is a machinery failure; compile errors inside generated shards are returned to the caller."""
+    """Build the workspace. Returns (ok, seconds, diagnostics text in rustc's short format). A failure to build
+    the macro crate itself is a machinery failure; compile errors inside generated shards are returned to the caller.
+    After a successful build, stale artefacts of this workspace's crates (other hashes, left behind by builds
+    against other states of the macro) are deleted from the shared target directory."""
     t0 = time.time()
-    cmd = ["cargo", "build", "--offline", "--profile", profile, "--message-format=short"]
+    cmd = ["cargo", "build", "--offline", "--profile", profile, "--message-format=json-diagnostic-short"]
     p = subprocess.run(cmd, cwd=ws, env=env(), capture_output=True, text=True)
     dt = time.time() - t0
+    diags, artifacts = [], []
+    for l in p.stdout.splitlines():
+        if not l.startswith("{"):
+            continue
+        try:
+            d = json.loads(l)
+        except ValueError:
+            continue
+        if d.get("reason") == "compiler-message":
+            r = (d.get("message") or {}).get("rendered")
+            if r:
+                diags.append(r.rstrip("\n"))
+        elif d.get("reason") == "compiler-artifact":
+            artifacts += d.get("filenames", [])
+            if d.get("executable"):
+                artifacts.append(d["executable"])
+    text = "\n".join(diags) + "\n" + p.stderr
     if p.returncode != 0:
-        err = p.stderr
-        if "could not compile `bitbybit`" in err and "_s" not in err.split("could not compile `bitbybit`")[0][-200:]:
-            raise MachineryError("the bitbybit macro crate itself does not build:\n" + err[-3000:])
-        return False, dt, err
-    return True, dt, p.stderr
+        if "could not compile `bitbybit`" in text and "_s" not in text.split("could not compile `bitbybit`")[0][-200:]:
+            raise MachineryError("the bitbybit macro crate itself does not build:\n" + text[-3000:])
+        return False, dt, text
+    gc_stale(ws, profile, artifacts)
+    return True, dt, text
+
+
+def gc_stale(ws, profile, artifacts):
+    import glob, re
+    stem = os.path.basename(ws).replace('-', '_')
+    keep = set()          # (crate, hash)
+    for f in artifacts:
+        m = re.match(r"(?:lib)?(" + re.escape(stem) + r"_(?:s\d+|runner))-([0-9a-f]{16})", os.path.basename(f))
+        if m:
+            keep.add((m.group(1), m.group(2)))
+    if not keep:
+        return
+    crates = {c for c, _ in keep}
+    pd = os.path.join(TARGET, profile)
+    for sub, pre in (("deps", "lib"), ("deps", ""), (".fingerprint", "")):
+        for f in glob.glob(os.path.join(pd, sub, f"{pre}{stem}_*")):
+            m = re.match(r"(?:lib)?(" + re.escape(stem) + r"_(?:s\d+|runner))-([0-9a-f]{16})", os.path.basename(f))
+            if not m or m.group(1) not in crates or (m.group(1), m.group(2)) in keep:
+                continue
+            if os.path.isdir(f):
+                shutil.rmtree(f, ignore_errors=True)
+            else:
+                try:
+                    os.remove(f)
+                except OSError:
+                    pass
 
 
 def runner_path(ws, profile):
@@ -296,3 +341,28 @@ def cross_check(structs, spec):
         errs = reparse.check_struct(rustgen.struct_decl(s), ms)
         if errs:
             raise MachineryError(f"generator: declaration text and layout spec disagree for {s.name}: {errs[:3]}")
+
+
+def clean_workspaces(pred):
+    """remove generated workspaces (sources) and their build outputs from the shared target dir;
+    pred(wsname) selects. Used after thorough runs to keep the disk bounded."""
+    import glob
+    if not os.path.isdir(WORK):
+        return
+    for ws in os.listdir(WORK):
+        if not os.path.isdir(os.path.join(WORK, ws)) or not pred(ws):
+            continue
+        stem = ws.replace('-', '_')
+        shutil.rmtree(os.path.join(WORK, ws), ignore_errors=True)
+        for prof in os.listdir(TARGET) if os.path.isdir(TARGET) else []:
+            pd = os.path.join(TARGET, prof)
+            for pat in (f"deps/lib{stem}_s*", f"deps/{stem}_s*", f"deps/{stem}_runner*", f"{stem}_runner*", f"lib{stem}_s*", f".fingerprint/{stem}_s*",
+                        f".fingerprint/{stem}_runner*", f"incremental/{stem}_*"):
+                for f in glob.glob(os.path.join(pd, pat)):
+                    if os.path.isdir(f):
+                        shutil.rmtree(f, ignore_errors=True)
+                    else:
+                        try:
+                            os.remove(f)
+                        except OSError:
+                            pass
